@@ -1,7 +1,11 @@
 import Prism.Proofs.C12
+import Prism.Proofs.C12Float
 
 #print axioms Prism.Alg.C12_white_to_white
 #print axioms Prism.Alg.C12_identity
 #print axioms Prism.Alg.C12_compose
 #print axioms Prism.Alg.C12_inverse
 #print axioms Prism.Alg.C12_linear
+#print axioms Prism.C12_apply_float_D65_D50
+#print axioms Prism.C12_apply_float_D50_D65
+#print axioms Prism.C12_exact_white_to_white
